@@ -439,6 +439,36 @@ func installCMap(f *sfnt.Font, kind string, r *v.Rand) {
 			}
 		}
 		f.InstallCMap(m)
+	case "multi":
+		// several subtables, among them Macintosh ones that share platform and
+		// encoding and differ only in the language field
+		mk := func() cmap.Format4 {
+			m := cmap.Format4{}
+			for _, c := range miniChars {
+				if c <= 0xFFFF && r.Chance(1, 2) {
+					if g := pickGid(); g != 0 {
+						m[uint16(c)] = g
+					}
+				}
+			}
+			m[uint16(0x40+r.Intn(20))] = pickGid()
+			return m
+		}
+		uni := mk().Encode(0)
+		t := cmap.Table{
+			{PlatformID: 0, EncodingID: 3}: uni,
+			{PlatformID: 3, EncodingID: 1}: uni,
+		}
+		langs := []uint16{0, 2, 5, 7, 12, 33}
+		for k := r.Range(2, 5); k > 0; k-- {
+			l := langs[r.Intn(len(langs))]
+			t[cmap.Key{PlatformID: 1, EncodingID: 0, Language: l}] = mk().Encode(l)
+		}
+		if r.Chance(1, 3) {
+			m12 := cmap.Format12{0x1F600: pickGid(), 0x41: pickGid()}
+			t[cmap.Key{PlatformID: 3, EncodingID: 10}] = m12.Encode(0)
+		}
+		f.CMapTable = t
 	case "f12":
 		m := cmap.Format12{}
 		for _, c := range miniChars {
